@@ -128,7 +128,34 @@ def run(ctx):
         warnings.simplefilter("ignore")
         ctx.compare("squash_replace", [[t[1], t[5]] for t in trees],
                     lambda a: squash_replace(a[0], [make_node(k) for k in a[1]]), nontrivial=lambda a, o: o != a[0])
+    # --replace output (squash_replace of the root's children) equals the flattened tree whenever no two substituted results overlap: random well-formed trees
+    # (string-typed children, values with quotes / backslashes included) and scans of generated inputs, in-process
+    import corpus_gen
+    from multidecoder.multidecoder import Multidecoder
+    md = Multidecoder()
+    cands = [make_node(t) for t in trees if _wf(t)][: ctx.budget(1500, 15000)]
+    for data in corpus_gen.gen_inputs(ctx.rng, ctx.budget(300, 4000)) + [b"cmd = '\"C:\\Tools\\run' + '.exe\"'", b"x = unescape('%22quoted%22') ;", b'y = "\'a" + "b\'" ;']:
+        try:
+            cands.append(md.scan(data))
+        except Exception:  # noqa: BLE001 (C01)
+            pass
+    with warnings.catch_warnings():
+        warnings.simplefilter("ignore")
+        for n in cands:
+            if not no_overlap(n):
+                ctx.count("replace_vs_flatten:overlap_skipped")
+                continue
+            ctx.evals += 1
+            a, b = squash_replace(bytes(n.value), n.children), n.flatten()
+            ctx.count("replace_vs_flatten:" + ("changed" if b != bytes(n.value) else "identity"))
+            if a != b:
+                ctx.violation("replace_vs_flatten", node_val(n), f"no two substituted results overlap but --replace output {a[:80]!r} differs from the flattened tree {b[:80]!r}")
+                break
     run_cli(ctx)
+
+
+def _wf(t):
+    return all(0 <= k[3] <= k[4] <= len(t[1]) and _wf(k) for k in t[5]) and all(x[3] <= y[3] for x, y in zip(t[5], t[5][1:]))
 
 
 def _undict(dv):
